@@ -106,8 +106,10 @@ def drive(sc):
     plan = Plan(rec.context)
     steps = [plan.add_step(kind) for kind, _ in run["steps"]]
     tracker = plan.add_handler("tracker", what="best", constraint_tolerance=1e-10, sources=set(steps))
-    for step, (kind, cfg) in zip(steps, run["steps"]):
-        rec.run_step(plan, step, copy.deepcopy(cfg), tracked=True, batch=run.get("batch", 1))
+    store = plan.add_handler("store", sources=set(steps))
+    for n, (step, (kind, cfg)) in enumerate(zip(steps, run["steps"]), start=1):
+        rec.run_step(plan, step, copy.deepcopy(cfg), tracked=True, batch=run.get("batch", 1), metadata={"tag": 10 * n, "list": [n]})
+    rec.store(plan.get(store, "results"))
     rec.best(plan.get(tracker, "results"))
     trace = rec.finish()
     return trace, {"nontrivial": True, "key": run["name"], "name": run["name"], "events": len(trace)}
